@@ -341,6 +341,42 @@ func (m *Machine) stub(fn *ssa.Function, args []Val) (r Val, ok bool) {
 		return Agg{f, Iface{}}, true
 	case "errors.Is":
 		return m.errorsIs(args[0].(Iface), args[1].(Iface)), true
+	case "(*sync.Mutex).Lock", "(*sync.RWMutex).Lock", "(*sync.RWMutex).RLock":
+		// sequential model: a lock that is already held can never be acquired (deadlock = PANIC)
+		p := args[0].(Ptr)
+		if m.locked[p.obj] && !strings.HasSuffix(name, "RLock") {
+			endPath("PANIC", "deadlock: %s on a mutex that is already locked", name)
+		}
+		if !strings.HasSuffix(name, "RLock") {
+			m.locked[p.obj] = true
+		}
+		return nil, true
+	case "(*sync.Mutex).Unlock", "(*sync.RWMutex).Unlock":
+		p := args[0].(Ptr)
+		if !m.locked[p.obj] {
+			endPath("PANIC", "sync: unlock of unlocked mutex")
+		}
+		delete(m.locked, p.obj)
+		return nil, true
+	case "(*sync.RWMutex).RUnlock":
+		return nil, true
+	case "(*sync.Mutex).TryLock":
+		p := args[0].(Ptr)
+		if m.locked[p.obj] {
+			return Bool(false), true
+		}
+		m.locked[p.obj] = true
+		return Bool(true), true
+	case "(*sync.Once).Do":
+		p := args[0].(Ptr)
+		if m.onceDone[p.obj] {
+			return nil, true
+		}
+		m.onceDone[p.obj] = true
+		if cl := args[1].(*Closure); cl != nil {
+			m.call(cl.fn, nil, cl.env)
+		}
+		return nil, true
 	case "bytes.IndexByte", "strings.IndexByte":
 		return m.indexByte(args[0], args[1].(*Term)), true
 	case "math/bits.TrailingZeros64", "math/bits.TrailingZeros32", "math/bits.TrailingZeros":
@@ -477,6 +513,7 @@ func (m *Machine) stub(fn *ssa.Function, args []Val) (r Val, ok bool) {
 func (m *Machine) external(fn *ssa.Function, args []Val) Val {
 	name := fn.Name()
 	full := fn.String()
+	var ret Val
 	if strings.HasPrefix(name, "vf") {
 		if r, ok := m.intrinsic(name, fn, args); ok {
 			return r
@@ -496,6 +533,8 @@ func (m *Machine) external(fn *ssa.Function, args []Val) Val {
 			return Agg{Const(64, 0), Const(32, 0), Const(64, 0)}
 		}
 		return Const(64, 1)
+	case strings.HasPrefix(full, "sync/atomic.") && m.atomicOp(full, fn, args, &ret):
+		return ret
 	case full == "sync/atomic.LoadPointer":
 		return m.Load(args[0].(Ptr), types.Typ[types.UnsafePointer])
 	case full == "sync/atomic.StorePointer":
@@ -1019,4 +1058,49 @@ func (m *Machine) errorsIs(err, target Iface) Val {
 	}
 	endPath("BUDGET", "errors.Is: unwrap chain longer than 32")
 	return nil
+}
+
+// atomicOp: sync/atomic primitives as sequentially consistent single steps on typed memory.
+func (m *Machine) atomicOp(full string, fn *ssa.Function, args []Val, ret *Val) bool {
+	op := strings.TrimPrefix(full, "sync/atomic.")
+	p, ok := args[0].(Ptr)
+	if !ok {
+		return false
+	}
+	et := fn.Signature.Params().At(0).Type().Underlying().(*types.Pointer).Elem()
+	switch {
+	case strings.HasPrefix(op, "Load"):
+		*ret = m.Load(p, et)
+	case strings.HasPrefix(op, "Store"):
+		m.Store(p, et, args[1])
+		*ret = nil
+	case strings.HasPrefix(op, "Swap"):
+		old := m.Load(p, et)
+		m.Store(p, et, args[1])
+		*ret = old
+	case strings.HasPrefix(op, "CompareAndSwap"):
+		cur := m.Load(p, et)
+		if m.branch(m.valEq(et, cur, args[1])) {
+			m.Store(p, et, args[2])
+			*ret = Bool(true)
+		} else {
+			*ret = Bool(false)
+		}
+	case strings.HasPrefix(op, "Add"):
+		cur := m.Load(p, et).(*Term)
+		nv := Bin(OBvAdd, cur, args[1].(*Term))
+		m.Store(p, et, nv)
+		*ret = nv
+	case strings.HasPrefix(op, "And"), strings.HasPrefix(op, "Or"):
+		cur := m.Load(p, et).(*Term)
+		o := OBvAnd
+		if strings.HasPrefix(op, "Or") {
+			o = OBvOr
+		}
+		m.Store(p, et, Bin(o, cur, args[1].(*Term)))
+		*ret = cur
+	default:
+		return false
+	}
+	return true
 }
